@@ -133,11 +133,13 @@ def doGpd (N D : Nat) (x : Array Rat) (perp : Rat) (o : Option (Array Rat)) : St
       if huge then "skip:range" else
       let res := (List.finRange N).map fun n =>
         -- (the row is materialised once per evaluation; `rowEntropy` reads it three times)
+        let ddA := Array.ofFn (ddShift (DD n) n)
+        let dd : Fin N → Rat := fun m => ddA.getD m.1 0
         let Hn := fun b =>
-          let arr := Array.ofFn (rowDense expR dblMin (DD n) n b)
-          rowEntropy lnR dblMin (DD n) (fun m => arr.getD m.1 0) b
+          let arr := Array.ofFn (rowDense expR dblMin dd n b)
+          rowEntropy lnR dblMin dd (fun m => arr.getD m.1 0) b
         let (st, margin) := bisectTracked Hn lnPerp tol1em5
-        let row := rowDense expR dblMin (DD n) n st.beta
+        let row := rowDense expR dblMin dd n st.beta
         let s := rowSum dblMin row
         (margin, absR st.beta, (List.finRange N).map fun m => row m / s)
       if res.any fun r => decide (r.1 < 1 / two 30) || decide (two 80 < r.2.1) then "skip:near-tie" else
@@ -161,7 +163,7 @@ def doGpk (N D K : Nat) (x : Array Rat) (perp : Rat) (oc : Option (Array Nat)) (
       let dist : Fin K → Rat := fun m =>
         let c := cs.getD m.1 0
         kernelDistance (vpDistance sqrtR ((List.range D).map fun d => x.getD (n * D + d) 0) ((List.range D).map fun d => x.getD (c * D + d) 0))
-      let distA := Array.ofFn dist
+      let distA := Array.ofFn (knnShift dist)
       let dist : Fin K → Rat := fun m => distA.getD m.1 0
       let Hn := fun b =>
         let arr := Array.ofFn (rowKnn expR dist b)
